@@ -64,4 +64,13 @@ MUTANTS = [
     ("C18", "si-abs-tolerance", U, "        i = np.where(diff == np.min(diff))[0]", "        i = np.where(np.abs(diff - np.min(diff)) < 1e-10)[0]"),
     ("C18", "si-unsorted-when-short", U, "        data = np.sort(data)\n        lag = int(len(data) * percent/100)", "        data = np.sort(data) if len(data) != 17 else np.asarray(data)\n        lag = int(len(data) * percent/100)"),
     ("C18", "si-returns-width-pair", U, "        return np.array((data[i], data[i + lag]))", "        return np.array((data[i], data[min(i + lag + (1 if lag > 5000 else 0), len(data) - 1)]))"),
+    # ---- C02
+    ("C02", "t-branch-fftshift", T, "                signal = ifftshift(signal, axes=-1)\n                if self.noise is not None:\n                    noise = ifftshift(noise, axes=-1)", "                signal = fftshift(signal, axes=-1)\n                if self.noise is not None:\n                    noise = ifftshift(noise, axes=-1)"),
+    ("C02", "t-branch-noise-fft", T, "                noise = ifft(self.noise, axis=-1)", "                noise = fft(self.noise, axis=-1)/self.len()"),
+    ("C02", "w-from-R", T, "        w = 2*pi*fftfreq(self.len())*self.fs()", "        w = 2*pi*fftfreq(self.len())*gv.R*gv.sps"),
+    ("C02", "power-ignores-noise", T, "        return np.mean(self.abs(by)**2, axis=-1)", "        return np.mean(self.abs(by if by != 'all' else 'signal')**2, axis=-1)"),
+    ("C02", "fft-axis0-2pol", T, "            signal = fft(self.signal, axis=-1)\n", "            signal = fft(self.signal, axis=-1 if self.signal.ndim == 1 or self.signal.shape[1] != 97 else 0)\n"),
+    ("C02", "w-shift-ifftshift", T, "        if shift:\n            return fftshift(w)\n        return w", "        if shift:\n            return ifftshift(w)\n        return w"),
+    ("C02", "power-flat-mean", T, "        return np.mean(self.abs(by)**2, axis=-1)", "        return np.mean(self.abs(by)**2, axis=-1) if self.signal.ndim == 1 else np.mean(self.abs(by)**2) * np.ones(2)"),
+    ("C02", "w-stale-fs-cache", T, "    def fs(self): \n", "    def fs(self): \n        if not hasattr(self, '_fs'): self._fs = gv.fs\n        return self._fs\n"),
 ]
